@@ -27,7 +27,10 @@ import (
 // line:   `srv <tree> <fin> <from> <dir> <max> <mask>`
 //   tree  `p:k,p:k,...`  segments: k blocks chained below the block with id p. Ids are given in
 //         insertion order, genesis = 0, so `0:5,2:3` is a main chain 1..5 and a fork 6,7,8 on block 2
-//   fin   reserved (finalised prefix); must be 0, anything else is `bad-tree`
+//   fin   number of the block of the best chain that is finalised after the tree is built (0 = none:
+//         everything stays in the in-memory block tree). Blocks up to `fin` then live in the database
+//         only. `bad-tree` unless fin <= best number and no other block has a number <= fin (so
+//         finalisation prunes nothing; pruning is the business of C15/C17)
 //   from  `n<number>` or `h<id>` (an id that is not in the tree is an unknown hash)
 //   dir   `a` ascending, `d` descending, `x` invalid (3)
 //   max   `nil` or a uint32
@@ -86,14 +89,8 @@ func c31Build(tree string, fin int) (*c31Env, string) {
 	if !ok {
 		return nil, "bad-op"
 	}
-	key := tree
+	key := tree + "|" + strconv.Itoa(fin)
 	if e, ok := c31Cache[key]; ok {
-		if e == nil {
-			return nil, "bad-tree"
-		}
-		if fin != 0 {
-			return nil, "bad-tree"
-		}
 		return e, ""
 	}
 	db, err := database.NewPebble("", true)
@@ -166,8 +163,26 @@ func c31Build(tree string, fin int) (*c31Env, string) {
 			cnt++
 		}
 	}
-	if cnt != 1 || fin != 0 {
+	if cnt != 1 || uint(fin) > deepest {
 		return nil, "bad-tree"
+	}
+	if fin > 0 {
+		perNumber := make([]int, deepest+1)
+		for _, n := range env.nums {
+			perNumber[n]++
+		}
+		for k := 0; k <= fin; k++ {
+			if perNumber[k] != 1 {
+				return nil, "bad-tree"
+			}
+		}
+		h, err := bs.GetHashByNumber(uint(fin))
+		if err != nil {
+			return nil, "setup-err"
+		}
+		if err := bs.SetFinalisedHash(h, 1, 1); err != nil {
+			return nil, "setup-err"
+		}
 	}
 	if len(c31Cache) >= 6 {
 		c31Cache = map[string]*c31Env{}
@@ -330,6 +345,7 @@ func c31Run(line string) string {
 // c31Shape is the generator's view of a tree: number and parent of every id.
 type c31Shape struct {
 	line   string
+	fin    int
 	nums   []int
 	parent []int
 	tips   []int // last id of every segment
@@ -423,6 +439,31 @@ func c31GenTree(r *vhRng) *c31Shape {
 		// cannot happen by construction; fall back to a plain chain
 		return &c31Shape{line: "0:7", nums: []int{0, 1, 2, 3, 4, 5, 6, 7}, parent: []int{0, 0, 1, 2, 3, 4, 5, 6}, tips: []int{7}}
 	}
+	// finalised prefix: up to the first number that two blocks share (nothing is pruned then)
+	if r.Chance(2, 5) {
+		d, _ := s.deepest()
+		per := make([]int, d+1)
+		for _, n := range s.nums {
+			per[n]++
+		}
+		lim := 0
+		for lim+1 <= d && per[lim+1] == 1 {
+			lim++
+		}
+		switch r.Intn(4) {
+		case 0:
+			s.fin = lim
+		case 1:
+			s.fin = lim - r.Intn(3)
+		case 2:
+			s.fin = 1 + r.Intn(3)
+		default:
+			s.fin = r.Intn(lim + 1)
+		}
+		if s.fin < 0 || s.fin > lim {
+			s.fin = lim
+		}
+	}
 	return s
 }
 
@@ -438,6 +479,9 @@ func c31Gen(r *vhRng) string {
 	if c31CurShape == nil || c31CurLeft <= 0 {
 		c31CurShape = c31GenTree(r)
 		c31CurLeft = 30 + r.Intn(60)
+		if len(c31CurShape.nums) < 4 {
+			c31CurLeft = 8 + r.Intn(10)
+		}
 	}
 	c31CurLeft--
 	s := c31CurShape
@@ -478,6 +522,9 @@ func c31Gen(r *vhRng) string {
 		case 3:
 			return best - maxV + r.Intn(4) - 1
 		case 4:
+			if s.fin > 0 && r.Bool() {
+				return s.fin + r.Pick(-1, 0, 1, maxV-1, maxV, maxV+1, -maxV, 1-maxV)
+			}
 			return r.Pick(126, 127, 128, 129, 130, 255, 256, 257)
 		default:
 			return r.Intn(best + 2)
@@ -547,7 +594,7 @@ func c31Gen(r *vhRng) string {
 	case 2, 3:
 		mask = r.Pick(1, 2, 4, 8, 16, 19, 31)
 	}
-	return fmt.Sprintf("srv %s 0 %s %s %s %d", s.line, from, dir, maxS, mask)
+	return fmt.Sprintf("srv %s %d %s %s %s %d", s.line, s.fin, from, dir, maxS, mask)
 }
 
 func TestVerifC31(t *testing.T) { vhMain(t, c31Gen, c31Run) }
